@@ -50,6 +50,7 @@ def check(ctx, args):
         del lib.GOENV["VH_GEN_MODE"]
     res_pf = pipelib.run_programs(ctx, progs_pf, "ps0")
     scen = []
+    nstale = 0
     allprogs = [(os.path.join(progs, n), n, i) for n, i in sorted(res.items())] + \
         [(os.path.join(progs_pf, n), "pf_" + n, i) for n, i in sorted(res_pf.items())]
     for d, name, info in allprogs:
@@ -59,6 +60,14 @@ def check(ctx, args):
         splits = pipelib.splits_of(d)
         spec = json.load(open(os.path.join(d, "spec.json")))["stages"]
         noouts = {n for n, b in spec.items() if not b.get("outs")}
+        # a split job that writes a shorter chunk list and then exits non-zero
+        # (only telling where the clean run has at least two chunks)
+        for jid, stage, phase in jobs:
+            if phase == "split" and nstale < (6 if quick else 60) and \
+                    sum(1 for j in jobs if j[0].startswith(jid[:-len("split")] + "chnk")) >= 2:
+                nstale += 1
+                scen.append({"dir": d, "prog": name, "site": jid, "stage": stage, "phase": phase,
+                             "kind": "stale_defs", "retry": "0", "once": False, "psid": "f%d" % len(scen)})
         for k in range(per_prog):
             jid, stage, phase = rnd.choice(jobs)
             pfj = [j for j in jobs if j[1] == "PFCHECK"]
@@ -70,8 +79,6 @@ def check(ctx, args):
                 # types only under --strict (Chunk.verifyOutput returns early at the
                 # default enforcement level): by design, see MANIFEST note
                 kind = "invalid"
-            if phase == "split" and k % 3 == 0:
-                kind = "stale_defs"   # the split writes a shorter chunk list, then exits non-zero
             if kind in CONTENT and stage in noouts:
                 kind = "exit"         # a stage without output parameters: the content of _outs is never read
             retry, once = "0", False
@@ -121,6 +128,21 @@ def check(ctx, args):
             last = incs[-1]
             if last["exit"] == 0 and r.get("outs") != pipelib.clean_outs(s["dir"]):
                 fail("restart_after_fix_wrong_result", "restart completes but the outs differ from the clean run")
+            elif last["exit"] == 0:
+                # every job of the clean run was executed in some incarnation
+                ran = set()
+                for i in range(len(incs)):
+                    try:
+                        for l in open(os.path.join(s["dir"], "%s.inc%d.events" % (s["psid"], i))):
+                            f = l.split()
+                            if len(f) > 2 and f[1] == "start":
+                                ran.add(f[2])
+                    except OSError:
+                        pass
+                skipped = sorted(j[0] for j in pipelib.clean_jobs(s["dir"]) if j[0] not in ran)
+                if skipped:
+                    rep["jobs_never_executed"] = skipped
+                    fail("restart_after_fix_skips_work", "restart completes, but jobs of the uninterrupted run were never executed: %s" % " ".join(skipped[:6]))
             elif last["exit"] != 0:
                 evf = os.path.join(s["dir"], "%s.inc1.events" % s["psid"])
                 rerun = os.path.exists(evf) and any(
